@@ -167,11 +167,12 @@ Section Machine.
   Lemma top_step_inv : forall done st p, st_inv done st -> next_inv (done ++ [EvP p]) (top_step st p).
   Proof.
     intros done st p I. pose proof (st_inv_mono done [EvP p] st I) as I'.
-    destruct p as [sub sec k|id|s]; simpl.
+    destruct p as [sub sec k|id|s|]; simpl.
     - destruct sub; simpl; auto. split; auto. exists done, sec, []. simpl. split; auto.
     - split; auto. exists done, []. simpl. split; auto.
     - destruct (sc_type (s_core s) =? pgp_sigtype_key_revocation); simpl; split; auto.
       all: try (destruct I' as [A B]; split; auto).
+    - split; auto.
   Qed.
 
   Lemma snoc_sig : forall pre x sigs s,
@@ -208,7 +209,7 @@ Section Machine.
   Proof.
     intros done st m p n I M H.
     destruct (is_sig_packet p) eqn:Ep.
-    - destruct p as [| |s]; try discriminate.
+    - destruct p as [| |s|]; try discriminate.
       destruct m as [|name self others|k sg].
       + rewrite step_top in H. injection H as <-. exact (top_step_inv done st (PSig s) I).
       + rewrite step_uid_sig in H. destruct M as (pre & sigs & E & Hs).
@@ -292,7 +293,7 @@ Theorem read_entity_bound : forall c P evs e, read_entity c P evs = Ok e ->
 Proof.
   intros c P evs e H. unfold read_entity in H.
   destruct evs as [|[p| | | |] rest]; try discriminate.
-  destruct p as [sub sec k|id|s]; try discriminate.
+  destruct p as [sub sec k|id|s|]; try discriminate.
   destruct (algo_can_sign (pk_algo k)) eqn:Ea; simpl in H; [|discriminate].
   pose proof (run_inv c P k (key_id (p_H P) k) rest [EvP (PKey sub sec k)] (mkest [] [] []) MTop e) as R.
   destruct R as (A & B & E1 & E2); auto.
@@ -456,9 +457,9 @@ Proof. intros. reflexivity. Qed.
 
 (* F8: unprotected secret key with a cv25519 subkey *)
 Definition f8_key : pubkey := mkpub 1 18 (KECDH oid_x25519 (mkmpi 263 (64 :: repeat 7 32)) [3; 1; 8; 7]).
-Lemma f8_legacy_panics : forall P, parse_secret_tail legacy P f8_key false [0; 0; 8; 1; 0; 1] = Panic "impossible".
+Lemma f8_legacy_panics : forall P, parse_secret_tail legacy P f8_key true [0; 0; 8; 1; 0; 1] = Panic "impossible".
 Proof. intros. reflexivity. Qed.
-Lemma f8_fixed_parses : forall P, parse_secret_tail fixed P f8_key false [0; 0; 8; 1; 0; 1] = Ok tt.
+Lemma f8_fixed_parses : forall P, parse_secret_tail fixed P f8_key true [0; 0; 8; 1; 0; 1] = Ok tt.
 Proof. intros. reflexivity. Qed.
 
 (* F7, second form: a 21-octet EdDSA point reached ed25519.Verify, which panics *)
@@ -723,21 +724,16 @@ Proof.
   destruct (pk_algo k =? 18); repeat np_step.
 Qed.
 
-Lemma parse_secret_tail_np : forall c P k short l, fix8 c = true -> params_np P -> np (parse_secret_tail c P k short l).
+Lemma parse_secret_tail_np : forall c P k complete l, fix8 c = true -> params_np P -> np (parse_secret_tail c P k complete l).
 Proof.
-  intros c P k short l H8 HP. unfold parse_secret_tail. destruct l as [|s2k r]; try reflexivity.
+  intros c P k complete l H8 HP. unfold parse_secret_tail. destruct l as [|s2k r]; try reflexivity.
   destruct (s2k =? 0).
-  { destruct short; [reflexivity | now apply parse_private_np]. }
+  { destruct complete; [now apply parse_private_np | reflexivity]. }
   destruct ((s2k =? 254) || (s2k =? 255)); try reflexivity.
-  destruct r as [|cipher [|t [|h r1]]]; try reflexivity.
-  destruct (negb (hash_id_ok h)); try reflexivity.
-  destruct (negb (p_avail P h)); try reflexivity.
-  apply np_bind.
-  - destruct (t =? 0); try reflexivity. destruct (t =? 1).
-    { destruct (read_n 8 r1) as [[? ?]|]; reflexivity. }
-    destruct (t =? 3); try reflexivity. destruct (read_n 9 r1) as [[? ?]|]; reflexivity.
-  - intros r2 _. destruct (cipher_block_size cipher =? 0); try reflexivity.
-    destruct (read_n _ r2) as [[? ?]|]; try reflexivity. destruct short; reflexivity.
+  destruct r as [|cipher r1]; try reflexivity.
+  destruct (s2k_parse P complete r1) as [r2| |]; try reflexivity.
+  destruct (cipher_block_size cipher =? 0); try reflexivity.
+  destruct (read_n _ r2) as [[? ?]|]; try reflexivity. destruct complete; reflexivity.
 Qed.
 
 (* packets and events *)
@@ -745,45 +741,72 @@ Definition packet_ok (p : packet) : Prop := match p with PKey _ _ k => key_ok k 
 Definition event_ok (ev : event) : Prop :=
   match ev with EvP p => packet_ok p | EvPanic => False | _ => True end.
 
-Lemma read_packet_ok : forall c P tag body short, fix7 c = true -> fix8 c = true -> params_np P ->
-  match read_packet c P tag body short with
+Lemma fin_ok : forall complete p, packet_ok p ->
+  match fin complete p with RPanic => False | RP q => packet_ok q | _ => True end.
+Proof. intros complete p H. destruct complete; simpl; auto. Qed.
+
+Lemma rd_of_err_ok : forall e, match rd_of_err e with RPanic => False | RP q => packet_ok q | _ => True end.
+Proof. intros e. unfold rd_of_err. destruct (String.eqb e miss); [exact I|]. destruct (String.eqb e eof); exact I. Qed.
+
+Ltac rp_trivial :=
+  repeat match goal with
+  | |- match (if ?b then _ else _) with _ => _ end => destruct b
+  | |- match (match ?x with _ => _ end) with _ => _ end => destruct x
+  | |- match fin ?c POther with _ => _ end => exact (fin_ok c POther I)
+  | |- _ => exact I
+  end.
+
+Lemma read_packet_ok : forall c P tag body complete, fix7 c = true -> fix8 c = true -> params_np P ->
+  match read_packet c P tag body complete with
   | RPanic => False
   | RP p => packet_ok p
   | _ => True
   end.
 Proof.
-  intros c P tag body short H7 H8 HP. pose proof HP as (_ & _ & He & _). unfold read_packet.
+  intros c P tag body complete H7 H8 HP. pose proof HP as (_ & _ & He & _). unfold read_packet.
   destruct ((tag =? 2) || (tag =? 6) || (tag =? 14)).
-  { destruct body as [|v b]; [destruct short; exact I|].
-    destruct (v <? 4); [exact I|].
+  { destruct body as [|v b]; [destruct complete; exact I|].
+    destruct (v <? 4).
+    { destruct (tag =? 2); [destruct (parse_sig_v3 (v :: b)) | destruct (parse_key_v3 (v :: b))];
+        try exact I; exact (fin_ok complete POther I). }
     destruct (tag =? 2).
     - pose proof (parse_sig_fuel_np (S (length (v :: b))) (v :: b)) as N. unfold parse_sig.
-      destruct (parse_sig_fuel _ _) as [[s [|? ?]]|e|s]; try exact I; try discriminate.
-      unfold rd_of_err. destruct (String.eqb e miss); exact I.
+      destruct (parse_sig_fuel _ _) as [[s ?]|e|s]; try discriminate.
+      + exact (fin_ok complete (PSig s) I).
+      + apply rd_of_err_ok.
     - pose proof (parse_public_key_np c (p_ecok P) (v :: b) H7 He) as N.
-      destruct (parse_public_key c (p_ecok P) (v :: b)) as [[k [|? ?]]|e|s] eqn:E; try exact I; try discriminate.
-      + simpl. eapply parse_public_key_ok; eauto.
-      + unfold rd_of_err. destruct (String.eqb e miss); exact I. }
+      destruct (parse_public_key c (p_ecok P) (v :: b)) as [[k ?]|e|s] eqn:E; try discriminate.
+      + apply fin_ok. simpl. eapply parse_public_key_ok; eauto.
+      + apply rd_of_err_ok. }
   destruct ((tag =? 5) || (tag =? 7)).
   { pose proof (parse_public_key_np c (p_ecok P) body H7 He) as N.
     destruct (parse_public_key c (p_ecok P) body) as [[k tail]|e|s] eqn:E; try discriminate.
-    - pose proof (parse_secret_tail_np c P k short tail H8 HP) as N2.
-      destruct (parse_secret_tail c P k short tail) as [u|e|s]; try discriminate.
+    - pose proof (parse_secret_tail_np c P k complete tail H8 HP) as N2.
+      destruct (parse_secret_tail c P k complete tail) as [u|e|s]; try discriminate.
       + simpl. eapply parse_public_key_ok; eauto.
-      + unfold rd_of_err. destruct (String.eqb e miss); exact I.
-    - unfold rd_of_err. destruct (String.eqb e miss); exact I. }
-  destruct (tag =? 13). { destruct short; exact I. }
-  destruct (unmodelled_tag tag); exact I.
+      + apply rd_of_err_ok.
+    - apply rd_of_err_ok. }
+  destruct (tag =? 13). { exact (fin_ok complete (PUid body) I). }
+  destruct (tag =? 1). { rp_trivial. }
+  destruct (tag =? 3). { rp_trivial. }
+  destruct (tag =? 4). { rp_trivial. }
+  destruct (tag =? 17). { rp_trivial. }
+  destruct (tag =? 8). { rp_trivial. }
+  destruct (tag =? 9). { exact I. }
+  destruct (tag =? 18). { rp_trivial. }
+  destruct (tag =? 11). { rp_trivial. }
+  exact I.
 Qed.
 
 Lemma events_fuel_ok : forall fuel c P l, fix7 c = true -> fix8 c = true -> params_np P ->
   Forall event_ok (events_fuel fuel c P l).
 Proof.
   induction fuel; intros c P l H7 H8 HP; simpl; [constructor|].
-  destruct (read_header l) as [| | |tag len rest]; try (repeat constructor).
-  set (short := lenN rest <? len). set (n := if short then length rest else N.to_nat len).
-  pose proof (read_packet_ok c P tag (take n rest) short H7 H8 HP) as R.
-  destruct (read_packet c P tag (take n rest) short); try (repeat constructor); auto.
+  destruct (read_header l) as [| |tag br rest]; try (repeat constructor).
+  destruct (read_body br rest) as [[body complete] after].
+  pose proof (read_packet_ok c P tag body complete H7 H8 HP) as R.
+  destruct (read_packet c P tag body complete); try (repeat constructor); auto.
+  destruct (skip_content br k rest); repeat constructor; auto.
 Qed.
 
 (* verification *)
@@ -841,10 +864,11 @@ Proof. intros st m. destruct m as [|n [s|] o|k [s|]]; reflexivity. Qed.
 Lemma top_step_mode_ok : forall st p, packet_ok p ->
   match top_step st p with Cont _ m => mode_ok m | Stop _ => True end.
 Proof.
-  intros st p Hp. destruct p as [sub sec k|id|s]; simpl.
+  intros st p Hp. destruct p as [sub sec k|id|s|]; simpl.
   - destruct sub; simpl; auto.
   - exact I.
   - destruct (_ =? _); exact I.
+  - exact I.
 Qed.
 
 Lemma step_np : forall c P primary pid st m p, params_np P -> key_ok primary -> mode_ok m -> packet_ok p ->
@@ -853,7 +877,7 @@ Lemma step_np : forall c P primary pid st m p, params_np P -> key_ok primary -> 
 Proof.
   intros c P primary pid st m p HP Hk Hm Hp.
   destruct (is_sig_packet p) eqn:Ep.
-  - destruct p as [| |s]; try discriminate. destruct m as [|name self others|k sg].
+  - destruct p as [| |s|]; try discriminate. destruct m as [|name self others|k sg].
     + rewrite step_top. split; [reflexivity|]. intros n E. injection E as <-. exact (top_step_mode_ok st (PSig s) Hp).
     + rewrite step_uid_sig. destruct (is_self_cert pid (s_core s)).
       * split.
@@ -904,7 +928,7 @@ Proof.
   unfold read_entity. destruct (events_of c P stream) as [|ev rest]; [reflexivity|].
   inversion Hev as [|? ? Hev1 Hev2]; subst.
   destruct ev as [p| | | |]; try reflexivity; [|contradiction].
-  destruct p as [sub sec k|id|s]; try reflexivity.
+  destruct p as [sub sec k|id|s|]; try reflexivity.
   destruct (negb (algo_can_sign (pk_algo k))); [reflexivity|].
   apply run_packets_np; auto. exact I.
 Qed.
@@ -917,33 +941,93 @@ Qed.
 Lemma read_n_lengths : forall n l a r, read_n n l = Some (a, r) -> (length l = length a + length r)%nat.
 Proof. intros n l a r H. apply read_n_spec in H. destruct H as [H _]. subst l. apply app_length. Qed.
 
-Lemma read_header_shorter : forall l tag len rest, read_header l = HPkt tag len rest -> (length rest < length l)%nat.
+Lemma read_length_shorter : forall r len p rest, read_length r = Some (len, p, rest) -> (length rest < length r)%nat.
 Proof.
-  intros l tag len rest H. unfold read_header in H. destruct l as [|b r]; [discriminate|].
+  intros r len p rest H. unfold read_length in H. destruct r as [|l0 r1]; [discriminate|].
+  destruct (l0 <? 192); [inversion H; subst; simpl; lia|].
+  destruct (l0 <? 224).
+  { destruct r1 as [|l1 r2]; [discriminate|]. inversion H; subst. simpl. lia. }
+  destruct (l0 <? 255); [inversion H; subst; simpl; lia|].
+  destruct (read_n 4 r1) as [[lb rest']|] eqn:E; [|discriminate]. inversion H; subst.
+  apply read_n_lengths in E. simpl. lia.
+Qed.
+
+Lemma read_header_shorter : forall l tag br rest, read_header l = HPkt tag br rest -> (length rest < length l)%nat.
+Proof.
+  intros l tag br rest H. unfold read_header in H. destruct l as [|b r]; [discriminate|].
   destruct (b <? 128); [discriminate|].
   destruct (N.land b 64 =? 0).
-  - destruct (N.land b 3 =? 3); [discriminate|].
+  - destruct (N.land b 3 =? 3); [inversion H; subst; simpl; lia|].
     destruct (read_n _ r) as [[lb rest']|] eqn:E; [|discriminate]. inversion H; subst.
     apply read_n_lengths in E. simpl. lia.
-  - destruct r as [|l0 r1]; [discriminate|].
-    destruct (l0 <? 192); [inversion H; subst; simpl; lia|].
-    destruct (l0 <? 224).
-    { destruct r1 as [|l1 r2]; [discriminate|]. inversion H; subst. simpl. lia. }
-    destruct (l0 <? 255); [discriminate|].
-    destruct (read_n 4 r1) as [[lb rest']|] eqn:E; [|discriminate]. inversion H; subst.
-    apply read_n_lengths in E. simpl. lia.
+  - destruct (read_length r) as [[[len p] rest']|] eqn:E; [|discriminate]. inversion H; subst.
+    apply read_length_shorter in E. simpl. lia.
+Qed.
+
+Lemma partial_body_after : forall fuel rem r b ok after,
+  partial_body fuel rem r = (b, ok, after) -> (length after <= length r)%nat.
+Proof.
+  induction fuel; intros rem r b ok after H; simpl in H.
+  - inversion H; subst. simpl. lia.
+  - destruct (read_n rem r) as [[chunk r1]|] eqn:E1; [|inversion H; subst; simpl; lia].
+    apply read_n_lengths in E1.
+    destruct (read_length r1) as [[[len p] r2]|] eqn:E2; [|inversion H; subst; simpl; lia].
+    apply read_length_shorter in E2.
+    destruct p.
+    + destruct (partial_body fuel len r2) as [[b' ok'] r3] eqn:E3. inversion H; subst.
+      apply IHfuel in E3. lia.
+    + destruct (read_n len r2) as [[last r3]|] eqn:E3.
+      * apply read_n_lengths in E3. inversion H; subst. lia.
+      * inversion H; subst. simpl. lia.
+Qed.
+
+Lemma read_body_after : forall br r b ok after, read_body br r = (b, ok, after) -> (length after <= length r)%nat.
+Proof.
+  intros br r b ok after H. destruct br as [n|rem|]; unfold read_body in H.
+  - destruct (read_n n r) as [[x r1]|] eqn:E.
+    + apply read_n_lengths in E. inversion H; subst. lia.
+    + inversion H; subst. simpl. lia.
+  - eapply partial_body_after; eauto.
+  - inversion H; subst. simpl. lia.
+Qed.
+
+Lemma partial_skip_shorter : forall fuel k rem more r r',
+  partial_skip fuel k rem more r = Some r' -> (length r' <= length r)%nat.
+Proof.
+  induction fuel; intros k rem more r r' H; simpl in H.
+  - destruct (k =? 0); [inversion H; subst; lia | discriminate].
+  - destruct (k =? 0); [inversion H; subst; lia|].
+    destruct (rem =? 0).
+    + destruct more; [|discriminate].
+      destruct (read_length r) as [[[len p] r1]|] eqn:E; [|discriminate].
+      apply read_length_shorter in E. apply IHfuel in H. lia.
+    + destruct (read_n (N.min k rem) r) as [[x r1]|] eqn:E; [|discriminate].
+      apply read_n_lengths in E. apply IHfuel in H. lia.
+Qed.
+
+Lemma skip_content_shorter : forall br k r r', skip_content br k r = Some r' -> (length r' <= length r)%nat.
+Proof.
+  intros br k r r' H. destruct br as [n|rem|]; unfold skip_content in H.
+  - destruct (k <=? n); [|discriminate].
+    destruct (read_n k r) as [[x r1]|] eqn:E; [|discriminate]. inversion H; subst.
+    apply read_n_lengths in E. lia.
+  - eapply partial_skip_shorter; eauto.
+  - destruct (read_n k r) as [[x r1]|] eqn:E; [|discriminate]. inversion H; subst.
+    apply read_n_lengths in E. lia.
 Qed.
 
 Theorem events_fuel_stable : forall f1 f2 c P l, (length l < f1)%nat -> (length l < f2)%nat ->
   events_fuel f1 c P l = events_fuel f2 c P l.
 Proof.
   induction f1; intros f2 c P l H1 H2; [lia|]. destruct f2; [lia|]. simpl.
-  destruct (read_header l) as [| | |tag len rest] eqn:E; auto.
+  destruct (read_header l) as [| |tag br rest] eqn:E; auto.
   apply read_header_shorter in E.
-  set (short := lenN rest <? len). set (n := if short then length rest else N.to_nat len).
-  assert (L : (length (drop n rest) <= length rest)%nat) by (rewrite drop_length; lia).
-  destruct (read_packet c P tag (take n rest) short); auto.
+  destruct (read_body br rest) as [[body complete] after] eqn:Eb.
+  apply read_body_after in Eb.
+  destruct (read_packet c P tag body complete); auto.
   - f_equal. apply IHf1; lia.
+  - destruct (skip_content br k rest) as [r'|] eqn:Es; auto.
+    apply skip_content_shorter in Es. f_equal. apply IHf1; lia.
   - apply IHf1; lia.
 Qed.
 
